@@ -155,6 +155,18 @@ CLAIMED = {
              "forms, all 174 expressible non-currency zones of the regenerated table, 5490 GMT forms. Tie: per-run differential "
              "check (thorough: all 174^2 ordered zone pairs) with an integer-arithmetic oracle.",
         design="DESIGN.md section 7 C11", technique="Coq proof (lia with mod arithmetic, induction over set_timezone histories, finite tables by vm_compute) + model/implementation correspondence"),
+
+    "C16": dict(
+        text="Partial. Theorems: blanks and comments are untyped tokens that never reach the token list; after the lexer only "
+             "the sequence of (token type, status) matters - update_token_variables, the unit loop, the rule loop, all 20 rule "
+             "functions, post-processing, parser and interpreter give the same result on position-relabelled inputs, for ALL "
+             "lines; every comparison of connectives, rule words, variable names, currencies, aliases, months and zones is "
+             "invariant under letter case (same to_lowercase / to_uppercase image). Bounded / computed: blank-only lines up to 80 "
+             "blanks, comment-only families, about 200 original/rewritten line pairs through the whole pipeline. The lexical step "
+             "(inserting blanks keeps the lexed token sequence) is NOT proved; it is decided per run by the differential check "
+             "evaluating each line and its rewritings (blanks, comments, case per keyword class). One listed known finding "
+             "(sign read into a literal changes which rule matches).",
+        design="DESIGN.md section 7 C16", technique="Coq proof (structural invariance of the post-lexer pipeline, case-invariance lemmas, computed families) + model/implementation correspondence on original/rewritten line pairs"),
 }
 
 PENDING_REASON = "check not built yet (work in progress; see DESIGN.md section 7)"
